@@ -14,6 +14,10 @@ def parseCmd : List String → Option QCmd
   | ["listen", k, cb] => some (.listen (nat! k) (nat! cb))
   | ["listenfront", k, cb] => some (.listenFront (nat! k) (nat! cb))
   | ["listenbefore", k, cb, h] => some (.listenBefore (nat! k) (nat! cb) (nat! h))
+  -- a listener wrapped by `conditionalFunctor` / `argumentAdapter` is a listener of the machine; the
+  -- condition is applied when the calls are shown (`showEv`), cf. `C12_conditional`, `C12_adapter`
+  | ["listencond", k, cb, _, _] => some (.listen (nat! k) (nat! cb))
+  | ["listenadapt", k, cb] => some (.listen (nat! k) (nat! cb))
   | ["unlisten", k, h] => some (.unlisten (nat! k) (nat! h))
   | ["hasany", k] => some (.hasAny (nat! k))
   | ["dispatch", k, a] => some (.dispatch (nat! k) (nat! a))
@@ -69,6 +73,8 @@ structure Script where
   /-- `cfg cci M R`: the `CanContinueInvoking` policy is `arg % M != R`; `M = 0` (default) = always continue -/
   cciM : Nat := 0
   cciR : Nat := 0
+  /-- callbacks registered through `conditionalFunctor`: (cb, M, R), the wrapped listener runs iff `arg % M == R` -/
+  conds : List (Nat × Nat × Nat) := []
   /-- top-level commands; `none` entries are the copy / move meta-commands (in `metas`, by position) -/
   dos : List QCmd := []
   metas : List (Nat × String) := []
@@ -98,8 +104,20 @@ def showKind : CallKind → String
   | .filter => "filter"
   | .pred => "pred"
 
-def showEv (showKeys : Bool) : QEv → Option String
+/-- conditions found in a command list (`listencond K CB M R`) -/
+def condsOf (cmds : List (List String)) : List (Nat × Nat × Nat) :=
+  cmds.filterMap (fun ts => match ts with
+    | ["listencond", _, cb, m, r] => some (nat! cb, nat! m, nat! r)
+    | _ => none)
+
+def condHolds (conds : List (Nat × Nat × Nat)) (cb arg : Nat) : Bool :=
+  match conds.find? (fun p => p.1 == cb) with
+  | some (_, m, r) => m != 0 && arg % m == r
+  | none => true
+
+def showEv (showKeys : Bool) (conds : List (Nat × Nat × Nat) := []) : QEv → Option String
   | .call c =>
+    if c.kind == .listener && !condHolds conds c.cb c.arg then none else
     let key := if c.kind == .listener || showKeys then toString c.key else "-1"
     some s!"ev call {showKind c.kind} {key} {c.h} {c.cb} {c.arg}"
   | .res r => some s!"ev res {showRes r}"
@@ -127,7 +145,7 @@ def run (sc : Script) : List String := Id.run do
       let (c', halted) := QCfg.runN b stepBudget { c with stack := [.prog (.op cmd (fun _ => .ret true))] }
       c := { c' with stack := [] }
       let newEvs := (c.trace.take (c.trace.length - before)).reverse
-      out := out ++ newEvs.filterMap (showEv sc.showKeys)
+      out := out ++ newEvs.filterMap (showEv sc.showKeys sc.conds)
       if !halted then out := out ++ ["fuel"]
     let qs := c.queue.map (fun s => match s.ev with
       | some e => s!"{e.key}:{e.arg}"
@@ -152,12 +170,13 @@ def addLine (sc : Script) (line : String) : Script :=
   | ["cfg", "ordered", v] => { sc with ordered := if v = "asc" then some true else if v = "desc" then some false else none }
   | ["cfg", "cci", m, r] => { sc with cciM := nat! m, cciR := nat! r }
   | "beh" :: cb :: nth :: v :: rest =>
-    { sc with beh := sc.beh ++ [⟨nat! cb, if nth = "*" then none else some (nat! nth), v != "0", splitSemi rest⟩] }
+    { sc with beh := sc.beh ++ [⟨nat! cb, if nth = "*" then none else some (nat! nth), v != "0", splitSemi rest⟩],
+              conds := sc.conds ++ condsOf (splitSemi rest) }
   | ["do", "qcopy", _] => { sc with metas := sc.metas ++ [(sc.dos.length, "copy")], dos := sc.dos ++ [.emptyq] }
   | ["do", "qmove", _] => { sc with metas := sc.metas ++ [(sc.dos.length, "move")], dos := sc.dos ++ [.emptyq] }
   | "do" :: rest =>
     match parseCmd rest with
-    | some c => { sc with dos := sc.dos ++ [c] }
+    | some c => { sc with dos := sc.dos ++ [c], conds := sc.conds ++ condsOf [rest] }
     | none => sc
   | _ => sc
 
